@@ -14,7 +14,8 @@ def run(tier, replay):
         jobs = []
         if tier == "quick":
             # boundary lengths for S=32: block and chunk edges over 1..4 chunks
-            for T, rng_ in ((1, (0, 40, 8)), (2, (15, 17, 1)), (2, (31, 33, 1)), (4, (47, 49, 1)), (4, (63, 65, 1)), (3, (95, 97, 1)), (5, (110, 113, 1)), (16, (33, 33, 1))):
+            for T, rng_ in ((1, (0, 40, 8)), (2, (15, 17, 1)), (2, (31, 33, 1)), (4, (47, 49, 1)), (4, (63, 65, 1)), (3, (95, 97, 1)), (5, (110, 113, 1)), (16, (33, 33, 1)),
+                             (1, (62, 66, 2)), (2, (94, 98, 2)), (3, (126, 130, 4))):    # a stream re-used for a later chunk
                 jobs.append((exe, ["rt", T, rng_[0], rng_[1], rng_[2], "all", "twice"]))
         else:
             for T in (1, 2, 3, 4, 5, 16):
